@@ -41,8 +41,31 @@ func Origins(v ssa.Value) []ssa.Value {
 				return
 			}
 			out = append(out, v)
+		case *ssa.Field:
+			// a field of a struct value that is a copy of a purely local struct variable: what was stored into that field
+			if ld, ok := Strip(x.X).(*ssa.UnOp); ok && ld.Op == token.MUL {
+				if al, ok := ld.X.(*ssa.Alloc); ok {
+					if vals, ok := localFieldStores(al, x.Field); ok {
+						for _, sv := range vals {
+							walk(sv)
+						}
+						return
+					}
+				}
+			}
+			out = append(out, v)
 		case *ssa.UnOp:
 			if x.Op == token.MUL {
+				if fa, ok := x.X.(*ssa.FieldAddr); ok {
+					if al, ok := Strip(fa.X).(*ssa.Alloc); ok {
+						if vals, ok := localFieldStores(al, fa.Field); ok {
+							for _, sv := range vals {
+								walk(sv)
+							}
+							return
+						}
+					}
+				}
 				if al, ok := x.X.(*ssa.Alloc); ok {
 					if sv := LastStoreBefore(x, al); sv != nil {
 						walk(sv)
@@ -158,4 +181,57 @@ func Resolve(v ssa.Value) ssa.Value {
 		}
 	}
 	return v
+}
+
+// localFieldStores: al is a struct variable (or &T{…} literal) that never leaves the function – it is only written field by
+// field and read field by field or copied as a whole – and field idx has at least one store: the stored values.
+// (Parameter objects and result structs introduced by a refactoring are of this kind once their helpers are inlined.)
+func localFieldStores(al *ssa.Alloc, idx int) ([]ssa.Value, bool) {
+	var vals []ssa.Value
+	for _, r := range Referrers(al) {
+		switch x := r.(type) {
+		case *ssa.FieldAddr:
+			for _, r2 := range Referrers(x) {
+				switch y := r2.(type) {
+				case *ssa.Store:
+					if y.Addr != ssa.Value(x) {
+						return nil, false // the field's address is stored somewhere
+					}
+					if x.Field == idx {
+						vals = append(vals, y.Val)
+					}
+				case *ssa.UnOp:
+					if y.Op != token.MUL {
+						return nil, false
+					}
+				case *ssa.DebugRef:
+				default:
+					return nil, false
+				}
+			}
+		case *ssa.UnOp:
+			if x.Op != token.MUL {
+				return nil, false
+			}
+		case *ssa.DebugRef:
+		case *ssa.Phi:
+			// the pointer merges with nil on paths that returned an error before using it
+			for _, e := range x.Edges {
+				if e != ssa.Value(al) && !IsNilConst(e) {
+					return nil, false
+				}
+			}
+			for _, r2 := range Referrers(x) {
+				switch r2.(type) {
+				case *ssa.FieldAddr, *ssa.DebugRef:
+				case *ssa.BinOp:
+				default:
+					return nil, false
+				}
+			}
+		default:
+			return nil, false
+		}
+	}
+	return vals, len(vals) > 0
 }
